@@ -84,6 +84,8 @@ impl StatementBatch {
                 let on = TimeoutLimit::parse(&t.on)?;
                 if millis >= on.as_secs() * 1000 {
                     task.set_data_with(|data| data.set(&key, true));
+                    // the once-flag has to survive a reload, or the rule fires again
+                    ctx.runtime.cache().upsert(&task)?;
                     for node in &task
                         .node()
                         .children_in(NodeOutputKind::Timeout, Some(t.on.clone()))
